@@ -554,6 +554,24 @@ impl<A: Address> Net<A> {
     }
 }
 
+/// Read-only accessors for external runtime monitors. Off by default.
+#[cfg(feature = "verif")]
+impl<A: Address> Net<A> {
+    /// (peer id, address, token flag, connection fingerprint) of every live peer.
+    pub fn verif_peers(&self) -> Vec<(PeerId, A, bool, String)> {
+        self.peers
+            .iter()
+            .map(|(pid, p)| (pid, p.addr, p.token, p.conn.verif_fingerprint()))
+            .collect()
+    }
+    pub fn verif_peer_needs_tick(&self, pid: PeerId) -> Option<Timeout> {
+        self.peers.get(pid).map(|p| p.conn.needs_tick())
+    }
+    pub fn verif_peer_state(&self, pid: PeerId) -> Option<&'static str> {
+        self.peers.get(pid).map(|p| p.conn.verif_state_name())
+    }
+}
+
 pub struct Tick<'a, A: Address + 'a, CB: Callback<A> + 'a> {
     iter_mut: peer_map::IterMut<'a, Peer<A>>,
     cb: &'a mut CB,
